@@ -106,7 +106,7 @@ theorem R.wmOK {c : Cfg} {a : ANode} (r : R c a) : WmOK a.n.store := by
   exact ⟨⟨w1, hw1⟩, ⟨w2, hw2⟩⟩
 
 /-- the node `NewManager` builds on an empty disk, for every initial height ≥ 1 -/
-theorem R_fresh (c : Cfg) (h1 : 1 ≤ c.initialHeight) : R c { n := freshNode c } := by
+theorem R_fresh (c : Cfg) (h1 : 1 ≤ c.initialHeight) : R c (freshA c) := by
   obtain ⟨n, ws, hst, hl, hsy, hwm, _⟩ := start_of_dinv (dinv_empty c h1)
   rw [start_empty] at hst
   simp only [Except.ok.injEq, Prod.mk.injEq] at hst
